@@ -404,35 +404,71 @@ def r4_save(prog, rep: Report, fam: Family, mut: Cls, rec: Cls, lines: str):
               "save does not hand the object's own iteration, the output and the line ending to the writer",
               scenario="save writes another sequence than list(f), or ignores the chosen line ending")
     record_save_check(prog, rep, "C12.R4", rec, w, lines)
-    # writer
+    # writer (read with the class's private helpers inlined: the print loop may live in a helper of its own)
+    from ..inline import inline_view
+    w_raw = w
+    w = inline_view(prog, mut, w)
     lines_p, out_p, le_p = w.params[0], w.params[1], w.params[2]
     loops = [n for n in walk_own(w.node) if isinstance(n, ast.For) and src(n.iter) == lines_p]
+    if not loops and any(isinstance(c, ast.Call) and isinstance(c.func, ast.Attribute) and c.func.attr.startswith("_")
+                         and any(src(a) == lines_p for a in c.args) for c in calls_in(w.node)):
+        rep.unrec("C12.R4", w, "writer", f"`{lines_p}` is handed to a helper that was not inlined: the print loop is not in view")
+        loops = None
+    skip_writer = loops is None
+    loops = loops or []
     ok, why = False, f"no loop over `{lines_p}`"
-    if len(loops) == 1:
-        lp = loops[0]
-        prints = [c for c in ast.walk(lp) if isinstance(c, ast.Call) and src(c.func) in ("print",) or
-                  (isinstance(c, ast.Call) and isinstance(c.func, ast.Attribute) and c.func.attr == "write")]
-        why = f"the loop body does not write each line exactly once with end={le_p}"
-        if len(prints) == 1 and not any(isinstance(x, (ast.If, ast.Break, ast.Continue)) for x in ast.walk(lp)):
-            p = prints[0]
-            if src(p.func) == "print":
-                end = kwarg(p, "end")
-                file = kwarg(p, "file")
-                line_arg = p.args[0] if p.args else None
-                uses_line = line_arg is not None and any(isinstance(x, ast.Name) and x.id == src(lp.target) for x in ast.walk(line_arg))
-                ok = end is not None and src(end) == le_p and file is not None and uses_line and len(p.args) == 1
-            else:
-                ok = le_p in src(p) and src(lp.target) in src(p)
+
+    def exclusive(ls) -> bool:
+        """the loops sit in different arms of one if (a path takes exactly one of them)"""
+        if len(ls) != 2:
+            return False
+        for n_ in walk_own(w.node):
+            if isinstance(n_, ast.If):
+                in_body = [any(x is l for b in n_.body for x in ast.walk(b)) for l in ls]
+                in_else = [any(x is l for b in n_.orelse for x in ast.walk(b)) for l in ls]
+                if (in_body[0] and in_else[1]) or (in_body[1] and in_else[0]):
+                    return True
+                # guard-clause form: one loop in an arm that ends with return / raise, the other after the if
+                for arm, other_in in ((n_.body, in_body), (n_.orelse, in_else)):
+                    if arm and isinstance(arm[-1], (ast.Return, ast.Raise)):
+                        inside = [any(x is l for b in arm for x in ast.walk(b)) for l in ls]
+                        anywhere = [any(x is l for x in ast.walk(n_)) for l in ls]
+                        if (inside[0] and not anywhere[1]) or (inside[1] and not anywhere[0]):
+                            return True
+        return False
+    if len(loops) == 1 or exclusive(loops):
+        oks = []
+        for lp in loops:
+            one = False
+            prints = [c for c in ast.walk(lp) if isinstance(c, ast.Call) and src(c.func) in ("print",) or
+                      (isinstance(c, ast.Call) and isinstance(c.func, ast.Attribute) and c.func.attr == "write")]
+            why = f"the loop body does not write each line exactly once with end={le_p}"
+            if len(prints) == 1 and not any(isinstance(x, (ast.If, ast.Break, ast.Continue)) for x in ast.walk(lp)):
+                p = prints[0]
+                if src(p.func) == "print":
+                    end = kwarg(p, "end")
+                    file = kwarg(p, "file")
+                    line_arg = p.args[0] if p.args else None
+                    uses_line = line_arg is not None and any(isinstance(x, ast.Name) and x.id == src(lp.target) for x in ast.walk(line_arg))
+                    one = end is not None and src(end) == le_p and file is not None and uses_line and len(p.args) == 1
+                else:
+                    one = le_p in src(p) and src(lp.target) in src(p)
+            oks.append(one)
+        ok = all(oks)
     content_ok = True
     content_why = ""
-    if len(loops) == 1:
-        for c in ast.walk(loops[0]):
-            if isinstance(c, ast.Call) and src(c.func) == "print" and c.args:
-                content_ok, content_why = writer_content_ok(c.args[0], src(loops[0].target))
+    if len(loops) == 1 or exclusive(loops):
+        for lp_ in loops:
+            for c in ast.walk(lp_):
+                if isinstance(c, ast.Call) and src(c.func) == "print" and c.args:
+                    c_ok, c_why = writer_content_ok(c.args[0], src(lp_.target))
+                    if not c_ok:
+                        content_ok, content_why = c_ok, c_why
     rep.check("C12.R4", w, "writer-content", content_ok, "the line is written unmodified (only a trailing '\\n' may be stripped)",
               content_why, scenario="a line ending in blanks or a tab (e.g. a TSV record whose last field is empty) is saved without "
                                     "them: the reopened file differs from the list", line=loops[0].lineno if loops else None)
-    rep.check("C12.R4", w, "writer", ok, f"each line written once, followed by {le_p}", why,
+    if not skip_writer:
+      rep.check("C12.R4", w, "writer", ok, f"each line written once, followed by {le_p}", why,
               scenario="save(out, line_ending='\\r\\n') writes '\\n', skips lines or writes them twice", line=loops[0].lineno if loops else None)
     opens = [c for c in calls_in(w.node) if ext_name(prog, w, c) == "open"]
     ok = len(opens) == 1 and src(opens[0].args[0]) == out_p and (open_mode(opens[0]) or "") in ("w", "wt") \
